@@ -317,3 +317,110 @@ class Win(reg32.AddrRange, word_count=3):
     window = list(range(0, 1 << ADDR_WIDTH, 4))
     return {"name": "tree/" + code, "source": source, "regs": regs, "hw": [],
             "unmapped": [a for a in window if a not in set(mapped)], "window": window, "tree": code}
+
+
+# ----------------------------------------------------------------------------------------------------------
+# sibling specialisations that differ in exactly ONE generic parameter, in both creation orders
+# (the std.Template specialisation cache must keep them apart)
+# ----------------------------------------------------------------------------------------------------------
+PAIR_ADDR_WIDTH = 9
+_ARR_BASE = ("w", 0, 16, 4)
+_ARR_ALTS = (("w", 0, 16, 8), ("w", 0, 16, 16), ("n", 0, 16, 4), ("w", 4, 16, 4), ("w", 0, 8, 4))
+
+
+def pair_codes():
+    """every pair gets its own address range (start/end shifted by 4 per pair, from 0x20 on - no other generated layout
+    uses these ranges), so the process-wide specialisation cache cannot carry a class from one pair (or tree) to another"""
+    raw = []
+    for alt in _ARR_ALTS:
+        raw += [(_ARR_BASE, alt), (alt, _ARR_BASE)]
+    raw += [(_ARR_ALTS[0], _ARR_ALTS[1]), (_ARR_ALTS[1], _ARR_ALTS[0])]
+    out = []
+    for i, (x, y) in enumerate(raw):
+        sh = 0x20 + 4 * i
+        fmt = lambda t: f"arr.{t[0]}.{t[1] + sh}.{t[2] + sh}.{t[3]}"
+        out.append(f"{fmt(x)}|{fmt(y)}")
+    out += ["mem.0.8|mem.0.12", "mem.0.12|mem.0.8"]
+    for a, b in (("fld.7.0.Null", "fld.7.0.Full"), ("fld.7.0.Null", "fld.15.0.Null"), ("fld.11.4.Null", "fld.7.4.Null")):
+        out += [f"{a}|{b}", f"{b}|{a}"]
+    return out
+
+
+def build_pair(code):
+    """two RegFile types Fa (at 0x0) and Fb (at 0x100), each holding one specialisation; a sentinel behind each"""
+    specs = code.split("|")
+    ports, hook, cfg_lines, regs, classes = [], [], [], [], []
+    need_rn = False
+    bases = (0x0, 0x100)
+
+    def word_reg(name, addr, port):
+        return {"name": name, "addr": addr, "cls": "MemWord", "notify": [],
+                "fields": [{"name": "raw", "hi": 31, "lo": 0, "kind": "mem", "port": port, "default": 0}]}
+
+    for idx, spec in enumerate(specs):
+        tag = "ab"[idx]
+        base = bases[idx]
+        f = spec.split(".")
+        if f[0] == "arr":
+            e, a, b, st = f[1], int(f[2]), int(f[3]), int(f[4])
+            et = "reg32.MemWord" if e == "w" else "Rn"
+            need_rn |= e == "n"
+            member = f"    x: reg32.Array[{et}, 0x{a:x}:0x{b:x}:{st}]"
+            size = b
+            for k, off in enumerate(range(0, b - a, st)):  # element k at start + k*step
+                addr = base + a + off
+                pid = f"{tag}{k}"
+                if e == "w":
+                    ports.append((f"o_{pid}", "BitVector[32]"))
+                    hook.append(f"self._e.o_{pid} <<= self.f{tag}.x[{k}].raw")
+                    regs.append(word_reg(pid, addr, f"o_{pid}"))
+                else:
+                    ports.extend([(f"o_{pid}_d", "BitVector[32]"), (f"o_{pid}_wn", "Bit"), (f"o_{pid}_rn", "Bit")])
+                    hook.append(f"self._e.o_{pid}_d <<= self.f{tag}.x[{k}].data.val()")
+                    hook.append(f"self._e.o_{pid}_wn <<= bool(self.f{tag}.x[{k}].wn)")
+                    hook.append(f"self._e.o_{pid}_rn <<= bool(self.f{tag}.x[{k}].rn)")
+                    regs.append({"name": pid, "addr": addr, "cls": "Register",
+                                 "notify": [("write", f"o_{pid}_wn"), ("read", f"o_{pid}_rn")],
+                                 "fields": [{"name": "data", "hi": 31, "lo": 0, "kind": "mem", "port": f"o_{pid}_d", "default": 0}]})
+        elif f[0] == "mem":
+            a, b = int(f[1]), int(f[2])
+            member = f"    x: reg32.Memory[0x{a:x}:0x{b:x}]"
+            size = b
+            cfg_lines.append(f"self.f{tag}.x._config_(initial=Null)")
+            for k in range((b - a) // 4):
+                regs.append({"name": f"{tag}[{k}]", "addr": base + a + 4 * k, "cls": "Memory", "notify": [],
+                             "fields": [{"name": "w", "hi": 31, "lo": 0, "kind": "mem", "port": None, "default": 0}]})
+        else:  # fld.<hi>.<lo>.<default>: a Register type whose only field is MemField[hi:lo, default]
+            hi, lo, dflt = int(f[1]), int(f[2]), f[3]
+            classes.append(f"\nclass R{tag}(reg32.Register):\n    v: reg32.MemField[{hi}:{lo}, {dflt}]\n")
+            member = f"    x: R{tag}[0x0]"
+            size = 4
+            w = hi - lo + 1
+            ports.append((f"o_{tag}", f"BitVector[{w}]"))
+            hook.append(f"self._e.o_{tag} <<= self.f{tag}.x.v.val()")
+            regs.append({"name": tag, "addr": base, "cls": "Register", "notify": [],
+                         "fields": [{"name": "v", "hi": hi, "lo": lo, "kind": "mem", "port": f"o_{tag}",
+                                     "default": (1 << w) - 1 if dflt == "Full" else 0}]})
+        classes.append(f"\nclass F{tag}(reg32.RegFile, word_count={size // 4 + 1}):\n{member}\n    s: reg32.MemWord[0x{size:x}]\n")
+        ports.append((f"o_s{tag}", "BitVector[32]"))
+        hook.append(f"self._e.o_s{tag} <<= self.f{tag}.s.raw")
+        regs.append(word_reg(f"s{tag}", base + size, f"o_s{tag}"))
+    rn = '''
+class Rn(reg32.Register):
+    data: reg32.MemField[31:0, Null]
+    wn: reg32.PushOnNotify.Write
+    rn: reg32.PushOnNotify.Read
+''' if need_rn else ""
+    src = HEADER + "from cohdl import Full\n" + rn + "".join(classes)
+    src += f"\n\nclass Map(reg32.AddrMap):\n    fa: Fa[0x{bases[0]:x}]\n    fb: Fb[0x{bases[1]:x}]\n"
+    src += "\n    def _config_(self, e):\n        self._e = e\n" + "".join(f"        {l}\n" for l in cfg_lines)
+    src += "\n    def _impl_concurrent_(self):\n" + "".join(f"        {l}\n" for l in hook)
+    src += f"\n\nclass T(axi.addr_map_entity(addr_width={PAIR_ADDR_WIDTH})):\n"
+    src += "".join(f"    {n} = Port.output({t})\n" for n, t in ports)
+    src += "\n    def architecture(self):\n        self.interface_connection().connect_addr_map(Map(self))\n"
+    regs.sort(key=lambda r: r["addr"])
+    mapped = [r["addr"] for r in regs]
+    assert len(mapped) == len(set(mapped)), f"generator error: overlapping registers in {code}"
+    window = list(range(0, 1 << PAIR_ADDR_WIDTH, 4))
+    return {"name": "pair/" + code, "source": src, "regs": regs, "hw": [],
+            "unmapped": [a for a in window if a not in set(mapped)], "window": window}
